@@ -1,6 +1,10 @@
 """C22 (sliver) WebAssembly integer runtime helpers: correspondence of Model.WasmRt with
 ppci/wasm/execution/runtime.py and evaluation of "helper = wasm spec operator" on the real
 functions (oracle: Spec.WasmInt on BitVec 32/64 through the driver)."""
+from harness import c22_gen as G_
+from harness import c22_exec as X_
+from harness import c22_run as R_
+
 PROP = "C22"
 LEAN_PROPS = "PpciVerif/Props/C22.lean"
 LEAN_TARGETS = ["PpciVerif.Props.C22", "Drivers.C22"]
@@ -124,7 +128,7 @@ def nontrivial(op, a):
     return not ("rot" in op and a[1] % n == 0)
 
 
-def check(ctx):
+def check_helpers(ctx):
     from ppci.wasm.execution import runtime as R
     cases = list(dict.fromkeys(gen_cases(ctx)))
     reqs = [op + " " + " ".join(str(x) for x in a) for op, a in cases]
@@ -151,9 +155,112 @@ def check(ctx):
                     ctx.note(f"argument outside the iN representations (not part of the property): {rq}: impl {i}, model {m}")
     for k in (0, 6, len(cases) // 3, len(cases) // 2, len(cases) - 1):
         ctx.sample({"request": reqs[k], "impl": impl[k], "model": model[k], "spec": spec[k]})
+
+
+# ---------------------------------------------------------------------------------------------------------------
+# whole modules: real ppci (python / native target) against the reference interpreter Spec.Wasm
+
+
+def native_split(task, parsed):
+    """native target, operator matrix: a division that traps in the specification kills the process (SIGFPE); such calls are
+    run in one-function modules of their own (a few per opcode), the rest in the big module"""
+    inst, outs, final = parsed
+    safe, danger = [], {}
+    for k, c in enumerate(task["calls"]):
+        spec = outs[k] if k < len(outs) else None
+        if spec and spec[0] == "trap" and ("divide" in spec[1] or "division" in spec[1]):
+            danger.setdefault(c[2], []).append(k)
+        else:
+            safe.append(k)
+    parts = [(dict(task, id=task["id"] + "-safe", calls=[task["calls"][k] for k in safe]), (inst, [outs[k] for k in safe], None))]
+    for label, ks in danger.items():
+        ks = ks[:1] + ks[-2:]
+        d = R_.single_op_module(label)
+        sub = dict(task, id=f"ops-{label}", desc=d, calls=[(0, task["calls"][k][1], label) for k in ks], nofinal=True)
+        parts.append((sub, (inst, [outs[k] for k in ks], None)))
+    return parts
+
+
+def thin_for_native(task):
+    st = task.get("native_stride")
+    return dict(task, calls=task["calls"][::st]) if st else task
+
+
+def run_tasks(ctx, tasks, targets, budget=240, workers=4):
+    """reference run (Lean) + real runs (forked children) + comparison; every difference goes to ctx.fail"""
+    from harness.common import BrokenCheck
+    failed_ops = {}
+    plan = []          # (task, target, parsed)
+    for target in targets:
+        ts = [thin_for_native(t) if target == "native" else t for t in tasks]
+        reqs = [G_.request(G_.prepare(t["desc"]), [(c[0], c[1]) for c in t["calls"]], R_.FUEL) for t in ts]
+        replies = ctx.driver("C22", reqs)
+        for t, rep in zip(ts, replies):
+            parsed = R_.parse_reply(rep)
+            if parsed[0][0] == "bad" or str(parsed[0]).startswith("inst-stuck") or any(o[0] == "stuck" for o in parsed[1]):
+                raise BrokenCheck(f"the reference interpreter rejected generated task {t['id']} (generator bug): {rep[:300]}")
+            if target == "native" and t["kind"] == "ops":
+                for sub, sp in native_split(t, parsed):
+                    plan.append((sub, target, sp))
+            else:
+                plan.append((t, target, parsed))
+    jobs = [X_.Job((t["id"], target), t["desc"], target, [(c[0], c[1]) for c in t["calls"]], t.get("stateless", False), budget)
+            for t, target, _p in plan]
+    X_.run_jobs(jobs, workers=workers)
+    first = {}
+
+    def report(sig, what, case, **detail):
+        ctx.count("fail_" + sig.split(":")[0])
+        if sig not in first:
+            first[sig] = 1
+            ctx.fail(sig, what, case, **detail)
+    # the operator matrix first (attribution of pattern failures to their leading opcode)
+    order = sorted(range(len(plan)), key=lambda i: 0 if plan[i][0]["kind"] == "ops" else 1)
+    for i in order:
+        t, target, parsed = plan[i]
+        cnt = R_.evaluate(t, target, jobs[i], parsed, report, failed_ops)
+        ctx.count(f"eval_{target}_{t['kind']}", cnt["calls"])
+        ctx.count(f"agree_{target}", cnt["agree"])
+        for k in ("skipped_nan_bits", "skipped_oof", "skipped_known_region"):
+            if cnt[k]:
+                ctx.count(f"{k}_{target}", cnt[k])
+        ctx.count("programs" if t["kind"] == "program" else "modules")
+        for c in t["calls"][:: max(1, len(t["calls"]) // 50)]:
+            ctx.nontrivial(f"{target}:{t['id']}:{c[2]}:{c[1]}")
+    return plan, jobs
+
+
+def module_tasks(ctx):
+    """fixed part first (independent of the seed: boundary operator matrix, patterns = corpus incl. the inputs of every known
+    finding), then the seeded part (random operands of the matrix, random programs)"""
+    tasks = [G_.ops_task(ctx.rng, ctx.thorough)] + G_.pattern_tasks()
+    tasks += G_.program_tasks(ctx.rng, 400 if ctx.thorough else 70)
+    return tasks
+
+
+def check_modules(ctx):
+    tasks = module_tasks(ctx)
+    targets = ["python"] + (["native"] if ctx.thorough else [])
+    plan, jobs = run_tasks(ctx, tasks, targets)
+    progs = [t for t in tasks if t["kind"] == "program"]
+    if progs:
+        t = progs[0]
+        ctx.sample({"random program": G_.to_wat(t["desc"])[:1500], "calls": [[c[0], list(c[1])] for c in t["calls"][:3]]})
+    ops = tasks[0]
+    ctx.sample({"operator matrix": f"{len(G_.NUMERIC)} numeric opcodes, {len(ops['calls'])} invocations", "first": [list(map(str, c)) for c in ops["calls"][:3]]})
+    ctx.extra_cov["targets"] = targets
+    ctx.extra_cov["native_target"] = "thorough tier only" if not ctx.thorough else "run"
+    ctx.extra_cov["reference"] = "Spec.Wasm (Lean interpreter written from the specification); no reference engine (wasmtime) exists in the sandbox"
+
+
+def check(ctx):
+    check_helpers(ctx)
+    check_modules(ctx)
     ctx.extra_cov["exhaustive"] = False
-    ctx.extra_cov["covered_part"] = "integer runtime helpers only (15 functions of runtime.py)"
-    ctx.extra_cov["not_covered"] = "wasm->IR translation, control flow, calls, memory, globals, floats, truncations, traps, both execution targets"
+    ctx.extra_cov["covered_part"] = ("theorems: integer runtime helpers + interpreter meta-properties; sampled correspondence: whole modules on the python target "
+                                     "(and the native target in the thorough tier) against Spec.Wasm")
+    ctx.extra_cov["not_covered"] = ("imports, multiple memories/tables, table.* / memory.fill/copy/init, reference types, multi-value function results; "
+                                    "whole-module conformance is sampled, not proved")
 
 
 def replay(ctx, rp):
@@ -168,5 +275,13 @@ def replay(ctx, rp):
         if i != out[0]:
             ctx.disagree(op, rq, i, out[0])
         evaluate(ctx, op, a, i, out[1])
+    elif isinstance(case, dict) and "module" in case:
+        label = case.get("label", "replay")
+        t = G_.task("replay", case["module"], [(c[0], tuple(c[1]), label) for c in case.get("calls", [])], kind="pattern", name=label)
+        run_tasks(ctx, [t], [case.get("target", "python")])
+        for f in ctx.failures:
+            print("replay:", f["signature"], "-", f["what"][:300])
+        if not ctx.failures:
+            print("replay: ppci agrees with the specification on this input")
     else:
         check(ctx)
